@@ -513,6 +513,12 @@ def run(ctx):
     x_tb += [fault_script(rng, "pacing") for _ in range(nfault)]
     x_gcc += [fault_script(rng, "leaky") for _ in range(nfault // 2)]
     x_gcc += [bwe_script(rng, k) for k in ("bwe-leaky", "bwe-leaky", "bwe-noop") for _ in range(nbwe // 3)]
+    # a leaky bucket at a target below one byte per pacing interval: the budget of one 5 ms tick is zero, packets leave only
+    # because unused time accumulates (240-bit packets at 1.2 / 1.5 kbit/s: 160-200 ms each)
+    for r in ((1500, 1200) if quick else (1500, 1200, 800, 1599)):
+        x_gcc.append({"kind": "leaky", "rate": r, "ival": 5, "qsize": 256, "streams": [1, 2],
+                      "steps": [wr(1, 1, 30), wr(2, 1, 30), wr(3, 2, 30), {"a": "quiesce", "wait": 3 * (720 * 1000 // r) + SLACK_MS},
+                                {"a": "close"}]})
     run_batches(ctx, [
         ("G-pacing", "pacing", tb + over),
         ("G-gcc", "gcc", gcc),
